@@ -123,6 +123,30 @@ def check(ctx):
         ok = feat["callable"][1]
         ctx.ob("SIB-1", who, f"callable branch {feat['callable'][0]}", who.node, ok,
                "rows(self) is evaluated under callable(rows)" if ok else "callable condition is not applied to the frame")
+    # colname=value pairs are compared AS GIVEN: a value first cast to the column's dtype (Vector.fast([value], column.dtype),
+    # column.dtype.type(value), np.array(value, column.dtype)) is rounded / truncated to it -- guests=1.5 then selects the
+    # rows where guests == 1 -- so the pair form is no longer the same selection as the mask or the callable
+    ctx.rule("CAST-value", "filter / filter_out compare colname=value pairs with the value as given")
+    n_cv = 0
+    for ff in (f1, f2):
+        for lp in [n for n in ast.walk(ff.node) if isinstance(n, ast.For) and isinstance(n.target, ast.Tuple) and len(n.target.elts) == 2
+                   and ".items()" in norm(n.iter)]:
+            vn = norm(lp.target.elts[1])
+            for cmp_ in [n for b_ in lp.body for n in ast.walk(b_) if isinstance(n, ast.Compare) and len(n.ops) == 1 and isinstance(n.ops[0], (ast.Eq, ast.NotEq))]:
+                sides = [x for x in (cmp_.left, cmp_.comparators[0]) if isinstance(x, ast.Name) and x.id == vn]
+                if not sides:
+                    continue
+                n_cv += 1
+                redefs = [d for d in defs_reaching(ff, vn, cmp_) if d.kind == "assign" and d.value is not None]
+                casts = [d for d in redefs if ".dtype" in norm(d.value)]
+                ctx.ob("CAST-value", ff, norm(cmp_), cmp_, not casts,
+                       "the value reaches the comparison as the caller gave it" if not casts else
+                       f"`{vn}` is first converted with {norm(casts[0].value)[:60]}: a value the column's dtype cannot hold exactly is rounded or "
+                       f"truncated (1.5 -> 1 for integers, a time of day dropped for dates, any non-zero number -> True), so rows are selected "
+                       f"that the mask `column == value` does not select", clause="the column=value form selects the same rows as the equivalent mask")
+                if redefs and not casts:
+                    raise AnalysisError(f"{ff.qualname}: the compared value `{vn}` is rebound ({norm(redefs[0].value)[:50]}) before the comparison")
+    ctx.count("colname=value comparisons in filter / filter_out", n_cv, 2)
     same = {k: (a[k], b[k]) for k in a if k != "operator" and a[k] != b.get(k)}
     ctx.ob("SIB-1", f2, "mask construction equals filter's", f2.node, not same,
            "filter and filter_out build their positions identically" if not same else
@@ -288,6 +312,7 @@ def check(ctx):
     reps = [c for f, c in calls_in(uq) if isinstance(c.func, ast.Attribute) and c.func.attr == "replace_na"]
     zips = [c for f, c in calls_in(uq) if isinstance(c.func, ast.Name) and c.func.id == "zip"]
     if not reps:
+        _gen.bitpattern_keys(ctx, uq, "missing values compare equal to each other; one row per distinct key")
         raise AnalysisError("DataFrame.unique no longer normalises NaN/NaT with replace_na: idiom changed, re-confirm GRD-sentinel")
     ctx.count("NA substitution sites in unique", len(reps), 1)
     # which element types take part in the substitution?  Every type whose missing value is not equal to itself
